@@ -188,9 +188,6 @@ class FunctorPool:
             self.pool = pool
 
         def run(self) -> None:
-            self.pool._sending_work = True
-            self.pool._data_cnt = 0
-
             def chunking(d):
                 ch = []
                 for x in d:
@@ -209,6 +206,12 @@ class FunctorPool:
                 self.run_event.wait()
 
             self.pool._sending_work = False
+            # wake up the consumer, it might be waiting for a result that will never come
+            try:
+                self.pool._results_queue.put(None, block=False)
+            except queue.Full:
+                # there are results in the queue, so the consumer is not waiting
+                pass
 
     def __init__(self, workers: List[BaseFunctorWorker[T, R]], context: Optional[BaseContext] = None,
                  work_queue_maxsize: Optional[Union[int, float]] = 1.0,
@@ -299,7 +302,8 @@ class FunctorPool:
 
     def _get_results(self) -> Tuple[List[int], List[R]]:
         """
-        Gets all results from results queue if there are no results it will wait until there are some.
+        Gets all results from results queue if there are no results it will wait until there are some
+        or until the sending thread signals that it has finished (in that case the lists might be empty).
 
         :return: tuple of list of indexes and list of results
         """
@@ -307,21 +311,29 @@ class FunctorPool:
         if self._results_queue.qsize() > 0:
             chunks = []
             indexes = []
+            woken = False
 
             with self._results_queue_lock:
                 try:
                     while self._results_queue.qsize() > 0:
-                        res_i, res_chunk = self._results_queue.get(block=False)
-                        chunks.append(res_chunk)
-                        indexes.append(res_i)
+                        res = self._results_queue.get(block=False)
+                        if res is None:
+                            # wake-up token from the sending thread
+                            woken = True
+                            continue
+                        chunks.append(res[1])
+                        indexes.append(res[0])
                 except queue.Empty:
                     ...
 
-            if len(chunks) > 0:
+            if len(chunks) > 0 or woken:
                 return indexes, chunks
 
-        res_i, res_chunk = self._results_queue.get()
-        return [res_i], [res_chunk]
+        res = self._results_queue.get()
+        if res is None:
+            # wake-up token from the sending thread
+            return [], []
+        return [res[0]], [res[1]]
 
     def imap(self, data: Iterable[T], chunk_size: int = 1) -> Generator[R, None, None]:
         """
@@ -335,6 +347,9 @@ class FunctorPool:
 
         buffer = Buffer()
         finished_cnt = 0
+        # must be set before the sending thread is started, else the loop condition may be evaluated too early
+        self._sending_work = True
+        self._data_cnt = 0
 
         with self.SendWorkThread(self, data, chunk_size) as send_thread:
             while self._sending_work or finished_cnt < self._data_cnt:
@@ -361,6 +376,9 @@ class FunctorPool:
         :return: generator of results
         """
         finished_cnt = 0
+        # must be set before the sending thread is started, else the loop condition may be evaluated too early
+        self._sending_work = True
+        self._data_cnt = 0
 
         with self.SendWorkThread(self, data, chunk_size):
             while self._sending_work or finished_cnt < self._data_cnt:
